@@ -127,7 +127,7 @@ def cases(ctx):
         items = [rng.choice(sp) if rng.random() < 0.7 else rng.choice(lits) for _ in range(rng.randint(1, 4))]
         args = [rng.choice(ARGS) for _ in range(rng.randint(0, 3))]
         out.append(Case(f"builtin format {wire.s(''.join(items))} {' '.join(args)}".rstrip(), ("items",)))
-    bad = ["{", "}", "{0", "{:", "{:>", "{{}", "{}}", "{:5", "{a}", "{-1}", "{:5.2}", "{:>>5}", "{:<<}", "{ }", "{0 }", "{:99999999999999999999}", "{99999999999999999999}", "{:x>}", "{:xx}", "{::}", "{}{", "{:1000000}"]
+    bad = ["{", "}", "{0", "{:", "{:>", "{{}", "{}}", "{:5", "{a}", "{-1}", "{:5.2}", "{:>>5}", "{:<<}", "{ }", "{0 }", "{:99999999999999999999}", "{99999999999999999999}", "{18446744073709551615}", "{18446744073709551614}", "{18446744073709551616}", "{18446744073709551615:>3}", "{4294967295}", "{4294967296}", "{:x>}", "{:xx}", "{::}", "{}{", "{:1000000}"]
     for s in bad:
         for args in arglists:
             out.append(Case(f"builtin format {wire.s(s)} {' '.join(args)}".rstrip(), ("malformed",)))
